@@ -199,6 +199,72 @@ class SymBytes(SymBase):
         return "<symhex>"
 
 
+class SymByteArray(SymBytes):
+    """bytearray whose content may be symbolic (concrete length at any time)."""
+
+    __slots__ = ()
+
+    def __repr__(self):
+        return f"<symbytearray len={len(self.items)}>"
+
+    def __getitem__(self, i):
+        if isinstance(i, slice):
+            return SymByteArray(list(self.items[i]))
+        return self.items[i]
+
+    def __setitem__(self, i, v):
+        if isinstance(i, slice):
+            self.items[i] = byte_items(v) if isinstance(v, (bytes, bytearray, SymBytes)) else list(v)
+        else:
+            self.items[i] = v
+
+    def __iadd__(self, o):
+        self.items.extend(byte_items(o))
+        return self
+
+    def __add__(self, o):
+        return SymByteArray(self.items + byte_items(o))
+
+    def extend(self, o):
+        self.items.extend(byte_items(o) if isinstance(o, (bytes, bytearray, SymBytes)) else list(o))
+
+    def append(self, v):
+        self.items.append(v)
+
+    def ljust(self, width, fill=b" "):
+        return SymByteArray(list(byte_items(SymBytes.ljust(self, width, fill))))
+
+    def rstrip(self, chars=None):
+        return SymByteArray(list(byte_items(SymBytes.rstrip(self, chars))))
+
+
+def make_bytearray(*args):
+    # interpreted code always gets the model object: a real bytearray could not take symbolic
+    # bytes written into it later (struct.pack_into, slice assignment)
+    if not args:
+        return SymByteArray([])
+    a = args[0]
+    if isinstance(a, SymBytes):
+        return SymByteArray(list(a.items))
+    if isinstance(a, (bytes, bytearray, int, str)):
+        return SymByteArray(list(bytearray(*args)))
+    return SymByteArray(byte_items(bytes_from_iterable(list(a))))
+
+
+def pack_into(fmt, buf, offset, *args):
+    data = byte_items(pack(fmt, *args))
+    if is_sym(offset):
+        offset = offset.__index__()
+    if offset < 0:
+        offset += len(buf)
+    if offset + len(data) > len(buf) or offset < 0:
+        raise _struct.error(f"pack_into requires a buffer of at least {offset + len(data)} bytes")
+    if isinstance(buf, bytearray) and not all(isinstance(b, int) for b in data):
+        raise Unsupported("struct.pack_into of symbolic values into a concrete bytearray")
+    buf[offset:offset + len(data)] = mkbytes(data) if isinstance(buf, bytearray) else data
+    return None
+
+
 def bytes_join(sep, parts):
     sep_i = byte_items(sep)
     out = []
